@@ -32,6 +32,11 @@ var purityExprs = []string{
 	"name(*)", "local-name(//a)", "namespace-uri(*)", "//*[name(..) = 'a']", "//*[local-name(*) = 'a']", "//*[namespace-uri(..) = '']",
 	"matches('1', string(a))", "matches(., string(a))", "replace('1x1', a, 'y')", "//*[matches('1', string(.))]", "//*[matches(., '1')]/a", "//*[a][last()]/a", "//*[@a][last()]",
 	"//*[count(a) = 1][last()]", "(//*)[last()]/a", "*[last()][a]", "//a[last()][. = '1']", "*[@a][last()]", "a[. = '1'][last()]",
+	// node-set functions and groups as arguments of other functions (the argument-cloning
+	// shortcut in functionArgs depends on the argument's query type)
+	"count(reverse(//a))", "string-join(reverse(*), ',')", "boolean(reverse(a))", "string(reverse(//*))", "sum(reverse(*))", "not(reverse(//a))", "count((reverse(*)))",
+	"concat(reverse(*), 'x')", "name(reverse(//*))", "string-length(reverse(a))", "count((//a))", "string((a | *))", "count(reverse(//*)[1])", "reverse(reverse(*))",
+	"not(* = 1)", "not(//*/*[position() < 3] = '1')", "boolean((//*)[2] = '1')", "string(a = (//*)[2])", "not(count(*) + count(//a))", "boolean(a and (*)[2])",
 	"floor(a * number(*))", "count(*) + floor(a * 2)", "string(a + 1)", "floor(a + *)", "//*[floor(a * number(@a)) = 1]", "ceiling(a div *)", "number(a - 1)",
 	"string-length(string(a + 1))", "boolean(a * 0)", "not(a + 1)", "concat(a + 1, 'x')", "round(a * *)", "sum(*) + floor(a)", "//*[ceiling(. + 1) = 2]",
 }
